@@ -9,7 +9,8 @@ Grammar: `case <id> exec <via>` · `a <cid> <act>` (append an act to the script 
 is printed as events `<cid>.<pc>@<depth>`) · `end`.
 Acts: `wake:<d|a|r|x|p>:<ids>` `detach:<d|a|r|x|p>:<id>` `gather:<d|a>:<ids>` `park` `parkn` `parkp` `wakep:<id>`
 `pause` `swap` `start:<id>` `startc:<id>` `spawn:<id>` `call:<id>` `join:<id>` `hop` `hopc` `end` `enter` `leave`
-`leavex` `gnext:<id>` `gyield`.  Work handed to other threads (`{w`/`{p` ... `}<active>` in the event list) is run whenever ordinary code is
+`leavex` `gnext:<id>` `gyield` `awaits:<ids>:<ids>` (`co_await` of a suspend point that holds the awaiting coroutine's own
+handle between the handles of the two id lists).  Work handed to other threads (`{w`/`{p` ... `}<active>` in the event list) is run whenever ordinary code is
 outside every block, as the harness does.  Mode `x` (suspend point destroyed by stack
 unwinding) and `leavex` (the callback of `install_queue_and_call` throws) are `Mode.discard` / `Act.leave` in the
 model: `~suspend_point` and `trailer::~trailer` do the same work whether or not an exception is in flight.
@@ -44,6 +45,7 @@ def parseAct (tok : String) : Option Act :=
   | ["call", d] => d.toNat?.map Act.call
   | ["gnext", d] => d.toNat?.map Act.gnext     -- bool(gen.next()) / gen() / gen.next().subscribe(a), by id % 3 in the harness
   | ["gyield"] => some Act.gyield
+  | ["awaits", pre, post] => some (Act.awaitSelf (parseIds pre) (parseIds post))
   | ["join", d] => d.toNat?.map Act.join
   | ["end"] => some Act.fin
   | ["enter"] => some Act.enter
@@ -78,7 +80,15 @@ def drain (p : Prog) (s : State) (evs : Array String) : Nat → Prog × State ×
         let p := { p with pcs := p.pcs.set! c (k + 1) }
         drain p (step s a) evs fuel
 
-def fuelOf (p : Prog) : Nat := p.scripts.foldl (fun n sc => n + sc.size + 2) 8
+/-- coroutines an act can bring to life (they may have no script line of their own: one act, `co_return`, each) -/
+def actWeight : Act → Nat
+  | Act.wake cs _ _ => cs.length + 1
+  | Act.awaitSelf pre post => pre.length + post.length + 1
+  | _ => 2
+
+/-- an upper bound of the number of acts the program can still execute: every act of every script once, plus one `co_return` per
+coroutine that has a script or is named by an act (programs with hundreds of script-less coroutines are generated) -/
+def fuelOf (p : Prog) : Nat := p.scripts.foldl (fun n sc => sc.foldl (fun m a => m + actWeight a) (n + 2)) 8
 
 /-- the other threads get their turn: every job, oldest first, each to completion (the harness does the same
 whenever ordinary code of the main thread is outside every block) -/
@@ -87,14 +97,14 @@ def runJobs (p : Prog) (s : State) (evs : Array String) : Nat → Prog × State 
   | n + 1 =>
     match s.jobs with
     | [] => (p, s, evs)
-    | (_, k) :: _ =>
+    | (hs, k) :: _ =>
         if s.cur.isSome || s.active || !s.blocks.isEmpty then (p, s, evs.push "JOB-NOT-IDLE")
         else
-          let (p, s, e) := drain p (step s Act.job) (evs.push (if k then "{w" else "{p")) (fuelOf p)
+          let (p, s, e) := drain p (step s Act.job) (evs.push (if k then "{w" else "{p")) (fuelOf p + hs.length)
           runJobs p s (e.push ("}" ++ boolStr s.active)) n
 
 def doMain (p : Prog) (s : State) (a : Act) : Prog × State × Array String :=
-  let (p, s, evs) := drain p (step s a) #[] (fuelOf p)
+  let (p, s, evs) := drain p (step s a) #[] (fuelOf p + actWeight a)
   if s.blocks.isEmpty then runJobs p s evs (fuelOf p) else (p, s, evs)
 
 def countSusp (p : Prog) (s : State) : Nat :=
